@@ -332,6 +332,9 @@ class ArrayLiteral(Expression):
         return isinstance(other, ArrayLiteral) and self.items == other.items
 
     def __str__(self) -> str:
+        if len(self.items) == 1:
+            # Without the trailing comma this would be read as a single value.
+            return f"{self.items[0]},"
         return ", ".join(str(e) for e in self.items)
 
     def __hash__(self) -> int:
